@@ -168,7 +168,10 @@ def run_env(variant, builddir, repo=None, extra=None):
         halt = "1" if variant == "asan" else "0"
         env["ASAN_OPTIONS"] = (
             f"detect_leaks=0:abort_on_error=1:halt_on_error={halt}:allocator_may_return_null=1:"
-            "max_allocation_size_mb=3072:handle_segv=1:detect_stack_use_after_return=0"
+            "max_allocation_size_mb=3072:handle_segv=1:detect_stack_use_after_return=0:"
+            # malloc'ed memory is filled with 0xbe up to 16 MiB per block (ASan's default stops at 4 KiB and fresh pages
+            # beyond that read as zero): a read of uninitialised heap memory then yields garbage that the value oracles see
+            "max_malloc_fill_size=16777216"
         )
         env["UBSAN_OPTIONS"] = "print_stacktrace=1" + (":halt_on_error=1" if variant == "asan" else "")
     if variant == "tsan":
